@@ -23,7 +23,8 @@ macro("S_levels", ["t"], """
     and len(t._levels) == len(t.config.levels) and len(t._levels) >= 1
     and kind(t._levels) == 4 and owner(t._levels) == t and kind(t.config.levels) == 0
     and forall(lambda l: imp(0 <= l < len(t._levels), t._levels[l] != None and kind(t._levels[l]) == 1
-                              and owner(t._levels[l]) == t and lvl(t._levels[l]) == l and t.config.levels[l] != None),
+                              and owner(t._levels[l]) == t and lvl(t._levels[l]) == l and t.config.levels[l] != None
+                              and t.config.levels[l].lsc != None),
                pats=[t._levels[l], t.config.levels[l]])
 """)
 macro("DemeOk", ["t", "l", "i", "d"], """
@@ -32,6 +33,7 @@ macro("DemeOk", ["t", "l", "i", "d"], """
     and d._history != None and kind(d._history) == 3 and owner(d._history) == d
     and d._problem != None and 0 <= d._started_at and d._started_at <= t.metaepoch_count
     and id_depth(d._id) == l and type_id(d) == deme_class_of(type_id(t.config.levels[l]))
+    and HistShape(d) and wowner(d._problem) == d and d._lsc != None
 """)
 macro("S_deme", ["t"], """
     forall(lambda l, i: imp(0 <= l < len(t._levels) and 0 <= i < len(t._levels[l]), DemeOk(t, l, i, t._levels[l][i])),
@@ -143,8 +145,8 @@ macro("LevelProblemsWf", ["t"], """
 """)
 # the problem objects an evaluation through a *new* deme may touch: user-supplied stacks, never another deme's own wrapper
 USER_PROBLEM_FRAME = [(f, "instance_of(o, 'Problem') and wowner(o) == None")
-                      for f in ("_n_evals", "hit_precision", "ETA", "$refused", "$ncalls")] + \
-                     [("$list", "kind(o) == 9")]
+                      for f in ("_n_evals", "hit_precision", "ETA", "$refused", "$ncalls")] + [("$clock", "o == None")] + \
+                     [("$list<fl>", "kind(o) == 9")]
 macro("SeedsOk", ["t", "s"], """
     s != None and forall(lambda k: imp(0 <= k < len(s.keys()),
         InTree(t, s.keys()[k]) and s.keys()[k]._level + 1 < len(t._levels)
@@ -152,7 +154,7 @@ macro("SeedsOk", ["t", "s"], """
         and kind(s[s.keys()[k]].individuals) == 0), pat=s.keys()[k])
 """)
 # lists of the tree structure that sprouting extends
-TREE_LISTS = [("$list", "(kind(o) == 1 and owner(o) == self) or kind(o) == 2")]
+TREE_LISTS = [("$list<ref:AbstractDeme>", "(kind(o) == 1 and owner(o) == self) or kind(o) == 2")]
 
 
 def level_chain_frames(t):
